@@ -693,6 +693,21 @@ def case_obscape(ws, rng, tmp, res, tier):
                             dict(kind="matrix", got=got[tg.index(F.secs(said_all[0]["time"]))].tolist(), rel=1e-12)))
     order_request(res, "obscape", [[F.secs(s["time"])] for s in said_all], tg, [fingerprint(got[i]) for i in range(got.shape[0])],
                   [fingerprint(np.asarray(s["values"]) * PI / 180.0) for s in said_all])
+    # the first file is rewritten in place (same name, the logger re-transmits a corrected record): reading it again returns what
+    # it holds now
+    try:
+        E2, _ = gen_spec2d(rng, nf, nd)
+        E2 = np.asarray(E2, dtype=float) + 1.0
+        t2 = times[perm[0]] + dt.timedelta(hours=1)
+        said2 = F.enc_obscape(paths[0], dict(time=t2, lat=lat, lon=lon, values=E2.tolist()), freqs, dd, extra_comment=True)
+        d2 = ws.read_obscape(str(paths[0]))
+        if tsec(d2.time.values) != [F.secs(t2)]:
+            fails.add(f"file rewritten in place: read again gives time {tsec(d2.time.values)}, the file says {[F.secs(t2)]}")
+        else:
+            cmp_arr(fails, "file rewritten in place: efth", np.asarray(d2.efth.values, dtype=float)[0], np.asarray(said2["values"]) * PI / 180.0,
+                    rel=1e-12)
+    except Exception as e:
+        fails.add(f"file rewritten in place: {type(e).__name__}: {e}")
 
 
 def case_ww3station(ws, rng, tmp, res, tier):
@@ -989,6 +1004,15 @@ def make_case(args):
     shutil.rmtree(tmp, ignore_errors=True)
     tmp.mkdir(parents=True)
     try:
+        if icase % 3 == 0:
+            # the same paths first held OTHER files of this format, which the readers were asked to read (a reader that remembers
+            # what it found at a path must not serve it again once the file has changed)
+            try:
+                CASES[fmt](ws, case_rng("C13-decoy", seed, icase), tmp, new_result(fmt), tier)
+            except Exception:
+                pass
+            shutil.rmtree(tmp, ignore_errors=True)
+            tmp.mkdir(parents=True)
         try:
             CASES[fmt](ws, rng, tmp, res, tier)
         except Exception as e:
